@@ -71,7 +71,7 @@ class C16:
         return _strategy()
 
     def examples(self, tier):
-        return 400 if tier == "quick" else 10000
+        return 400 if tier == "quick" else 150000
 
     def enumerate(self, tier):
         out = []
